@@ -666,6 +666,56 @@ func ruleExhErrName(c *Ctx, r *R) {
 			return true
 		})
 	}
+	// format-first: the first variadic argument of the error helpers is a string at every call site
+	// (newError asserts in[0].(string) unconditionally)
+	helpers := map[string]bool{"newError": true, "panicTypeError": true, "panicReferenceError": true, "panicURIError": true, "panicSyntaxError": true, "panicRangeError": true}
+	for _, fn := range c.AllSrcFuncs("") {
+		for _, b := range fn.Blocks {
+			for _, ins := range b.Instrs {
+				call, ok := ins.(*ssa.Call)
+				if !ok {
+					continue
+				}
+				callee := call.Call.StaticCallee()
+				if callee == nil || !helpers[callee.Name()] || !callee.Signature.Variadic() {
+					continue
+				}
+				va := call.Call.Args[len(call.Call.Args)-1]
+				sl, ok := va.(*ssa.Slice)
+				if !ok {
+					continue // nil (no arguments) or a forwarded slice
+				}
+				al, ok := sl.X.(*ssa.Alloc)
+				if !ok || al.Comment != "varargs" {
+					continue
+				}
+				first := ""
+				for _, ref := range *al.Referrers() {
+					ia, ok := ref.(*ssa.IndexAddr)
+					if !ok {
+						continue
+					}
+					if idx, isC := constInt(ia.Index); !isC || idx != 0 {
+						continue
+					}
+					for _, r2 := range *ia.Referrers() {
+						if st, ok := r2.(*ssa.Store); ok {
+							if mi, ok := st.Val.(*ssa.MakeInterface); ok {
+								first = typeStr(mi.X.Type())
+							} else {
+								first = "interface"
+							}
+						}
+					}
+				}
+				if first == "" {
+					continue
+				}
+				r.check(first == "string", "format-first:"+ssaFuncName(fn)+":"+callee.Name(), c.Pos(instrPos(ins)), "format string first",
+					fmt.Sprintf("%s is called with a first variadic argument of type %s; newError asserts in[0].(string) without a check, so raising this error would itself panic the host", callee.Name(), first))
+			}
+		}
+	}
 	// readers: switches over an error name with case labels among the ES5 names
 	for _, f := range p.Syntax {
 		ast.Inspect(f, func(n ast.Node) bool {
@@ -812,5 +862,122 @@ func ruleExhObjClass(c *Ctx, r *R) {
 			}
 			return true
 		})
+	}
+}
+
+func init() {
+	register(&Rule{ID: "LENGTH-repr", Props: []string{"C08", "C02"}, Min: 4,
+		Doc: "T: the Go payload type of an array's length is uint32 wherever it is produced - in the constructor that installs the array objectClass table, in every slot function of that table, and in the Array.prototype literal - and a String object's length payload is int; this is what the unchecked assertions .(uint32) / .(int) in objectLength, arrayDefineOwnProperty and export rely on",
+		Run: ruleLengthRepr})
+}
+
+func ruleLengthRepr(c *Ctx, r *R) {
+	cf := computeClassFacts(c)
+	numberHelpers := map[string]string{"intValue": "int", "int32Value": "int32", "int64Value": "int64", "uint16Value": "uint16", "uint32Value": "uint32", "float64Value": "float64"}
+	check := func(fn *ssa.Function, want, why string) {
+		n := 0
+		for _, b := range fn.Blocks {
+			for _, ins := range b.Instrs {
+				st, ok := ins.(*ssa.Store)
+				if !ok || !isFieldAddr(st.Addr, "property", "value") {
+					continue
+				}
+				mi, ok := st.Val.(*ssa.MakeInterface)
+				if !ok {
+					continue
+				}
+				call, ok := mi.X.(*ssa.Call)
+				if !ok || call.Call.StaticCallee() == nil {
+					continue
+				}
+				t, isNum := numberHelpers[call.Call.StaticCallee().Name()]
+				if !isNum {
+					continue
+				}
+				n++
+				r.check(t == want, fmt.Sprintf("store:%s:%s", ssaFuncName(fn), call.Call.StaticCallee().Name()), c.Pos(instrPos(ins)), "length payload "+t,
+					fmt.Sprintf("%s stores a number Value with a %s payload into a property of an array (%s); readers assert .(%s) unconditionally", ssaFuncName(fn), t, why, want))
+			}
+			for _, ins := range b.Instrs {
+				call, ok := ins.(*ssa.Call)
+				if !ok {
+					continue
+				}
+				callee := call.Call.StaticCallee()
+				if callee == nil || callee.Name() != "defineProperty" || len(call.Call.Args) < 3 {
+					continue
+				}
+				nameC, ok := call.Call.Args[1].(*ssa.Const)
+				if !ok || nameC.Value == nil || constant.StringVal(nameC.Value) != "length" {
+					continue
+				}
+				vcall, ok := call.Call.Args[2].(*ssa.Call)
+				if !ok || vcall.Call.StaticCallee() == nil {
+					r.undecided("define:"+ssaFuncName(fn), c.Pos(instrPos(ins)), "length defined from a value that is not a typed helper call")
+					continue
+				}
+				t := numberHelpers[vcall.Call.StaticCallee().Name()]
+				n++
+				r.check(t == want, fmt.Sprintf("define:%s:%s", ssaFuncName(fn), vcall.Call.StaticCallee().Name()), c.Pos(instrPos(ins)), "length payload "+t,
+					fmt.Sprintf("%s defines `length` with a %s payload (%s); readers assert .(%s) unconditionally", ssaFuncName(fn), t, why, want))
+			}
+		}
+		if n == 0 {
+			r.ok("none:"+ssaFuncName(fn), c.Pos(fn.Pos()), "no length payload produced here")
+		}
+	}
+	// constructors and slot functions of the array table
+	arrayTable, stringTable := "", ""
+	for v := range cf.payloadOfClassVar {
+		_ = v
+	}
+	m := c.ObjectClassOfClassName()
+	if o := m["Array"]; o != nil {
+		arrayTable = o.Name()
+	}
+	if o := m["String"]; o != nil {
+		stringTable = o.Name()
+	}
+	if arrayTable == "" || stringTable == "" {
+		r.undecided("tables", "-", "UNRESOLVED array / string objectClass tables")
+		return
+	}
+	for _, fn := range c.AllSrcFuncs("") {
+		installs := ""
+		for _, b := range fn.Blocks {
+			for _, ins := range b.Instrs {
+				if st, ok := ins.(*ssa.Store); ok && isFieldAddr(st.Addr, "object", "objectClass") {
+					if g := rootGlobal(st.Val, 0); g != nil {
+						installs = g.Name()
+					}
+				}
+			}
+		}
+		switch {
+		case installs == arrayTable:
+			check(fn, "uint32", "constructor installing "+arrayTable)
+		case installs == stringTable:
+			check(fn, "int", "constructor installing "+stringTable)
+		case cf.slotFuncs[fn] == arrayTable:
+			check(fn, "uint32", "slot function of "+arrayTable)
+		}
+	}
+	// the prototypes in the literal heap
+	s := c.Shape()
+	for path, want := range map[string]string{"Array.prototype": "uint32", "String.prototype": "int"} {
+		o := s.ByPath[path]
+		if o == nil || o.Props["length"] == nil {
+			r.bad("literal:"+path, "inline.go", path+" has no length property")
+			continue
+		}
+		got := "?"
+		if sv, ok := o.Props["length"].Value.(*SValue); ok {
+			if cst, ok := sv.Payload.(SConst); ok && cst.Type != nil {
+				got = typeStr(cst.Type)
+			} else if e, ok := sv.Payload.(SExpr); ok {
+				got = typeStr(s.info.TypeOf(e.E))
+			}
+		}
+		r.check(got == want, "literal:"+path, c.Pos(o.Props["length"].Pos), got, fmt.Sprintf("%s.length has a %s payload in the literal heap; readers assert .(%s)", path, got, want))
 	}
 }
